@@ -1,6 +1,6 @@
 """C01 — decoding untrusted bytes is total (claimed in part): R-LIMIT, R-RAWINT, R-EOF, R-BLOCK."""
 from ..engine import Ctx, LIB_CRATES
-from . import rawint, limit, block, taintalloc, fieldrange, signidx, searchunwrap, recursion, enumarm
+from . import rawint, limit, block, taintalloc, fieldrange, signidx, searchunwrap, recursion, enumarm, fixguards
 
 
 def main(pid, tier, repo=None):
@@ -15,6 +15,7 @@ def main(pid, tier, repo=None):
         searchunwrap.rule_pass_chain(ctx)
         recursion.run(ctx, LIB_CRATES)
         enumarm.run(ctx, LIB_CRATES)
+        fixguards.run(ctx, pid)
         limit.run(ctx, LIB_CRATES)
         taintalloc.run(ctx, LIB_CRATES)
         block.run_block(ctx, LIB_CRATES)
